@@ -27,7 +27,7 @@ PROP = {  # commit subject prefix -> property
  "the TSV result reader keeps a variable": "C16", "graph canonicalisation only": "C14",
  "the N-Triples/N-Quads parser accepts IRIs": "C03",
  "canonicalisation verifies": "C14", "canonicalisation keeps tying": "C14", "a blank node in predicate position": "C14", "Turtle, long Turtle and N3 serialisation terminates": "C03",
- "the Turtle serialisers write": "C03", "the Turtle serialisers stop": "C03", "the Turtle serialisers keep": "C03", "pretty-xml writes": "C03",
+ "the Turtle serialisers write": "C03", "the Turtle serialisers stop": "C03", "the compacting JSON-LD serialiser keeps": "C03", "the Turtle serialisers keep": "C03", "pretty-xml writes": "C03",
  "pretty-xml accepts": "C03", "the Turtle serialisers declare": "C03", "the Turtle shorthand for xsd:decimal": "C03",
  "relative IRI references are resolved": "C05",
  "SPARQL XML results write a carriage return": "C16", "SPARQL XML serialisation refuses": "C16",
